@@ -40,7 +40,7 @@ struct MidiWorld : World {
     std::string describe(const Op &op) const override {
         char b[96];
         switch (op.kind) { case U_MAP: snprintf(b, sizeof b, "user:map(%s,%s)", ADDR[((op.a[0] % NADDR) + NADDR) % NADDR], op.a[1] & 1 ? "fine" : "coarse"); break; case U_UNMAP: snprintf(b, sizeof b, "user:unMap(%s,%s)", ADDR[((op.a[0] % NADDR) + NADDR) % NADDR], op.a[1] & 1 ? "fine" : "coarse"); break;
-            case U_CLEAR: snprintf(b, sizeof b, "user:clear"); break; case M_CC: snprintf(b, sizeof b, "midi:cc(%lld,%lld)", (long long)op.a[0], (long long)op.a[1]); break; case M_PAIR: snprintf(b, sizeof b, "midi:pair(%lld,%lld<=%lld)", (long long)op.a[0], (long long)op.a[1], (long long)op.a[2]); break;
+            case U_CLEAR: snprintf(b, sizeof b, "user:clear"); break; case M_CC: snprintf(b, sizeof b, "midi:cc(%s%lld,%lld)", op.a[3] % 3 == 1 ? "ch2:" : op.a[3] % 3 == 2 ? "nrpn:" : "", (long long)op.a[0], (long long)op.a[1]); break; case M_PAIR: snprintf(b, sizeof b, "midi:pair(%lld,%lld<=%lld)", (long long)op.a[0], (long long)op.a[1], (long long)op.a[2]); break;
             case D_A: snprintf(b, sizeof b, "deliver(nRT->RT)"); break; default: snprintf(b, sizeof b, "deliver(RT->nRT)"); }
         return b;
     }
@@ -51,7 +51,7 @@ struct MidiWorld : World {
         double w_user = 0.15 + 0.2 * pr.unit(), w_midi = 0.25 + 0.3 * pr.unit(), w_del = 0.2 + 0.4 * pr.unit(); double tot = w_user + w_midi + w_del;
         for (int i = 0; i < n; i++) { Op o; double u = pr.unit() * tot;
             if ((u -= w_user) < 0) { double s = pr.unit(); o.kind = s < 0.65 ? U_MAP : s < 0.9 ? U_UNMAP : U_CLEAR; o.a[0] = pr.below(na); o.a[1] = pr.chance(0.25); }
-            else if ((u -= w_midi) < 0) { o.kind = pr.chance(0.25) ? M_PAIR : M_CC; o.a[0] = 2 + pr.below(nc); o.a[1] = pr.chance(0.2) ? pr.pick(std::vector<int64_t>{0, 127, 64}) : (int64_t)pr.below(128); if (o.kind == M_CC && pr.chance(0.3)) o.a[1] = -1; /* -1: send the value this controller sent last */ o.a[2] = pr.below(128); if (o.kind == M_PAIR && o.a[1] > o.a[2]) std::swap(o.a[1], o.a[2]); }
+            else if ((u -= w_midi) < 0) { o.kind = pr.chance(0.25) ? M_PAIR : M_CC; o.a[0] = 2 + pr.below(nc); o.a[3] = pr.chance(0.75) ? 0 : 1 + pr.below(2);   /* a[3]: 0 channel 1, 1 channel 2, 2 NRPN on channel 1 */ o.a[1] = pr.chance(0.2) ? pr.pick(std::vector<int64_t>{0, 127, 64}) : (int64_t)pr.below(128); if (o.kind == M_CC && pr.chance(0.3)) o.a[1] = -1; /* -1: send the value this controller sent last */ o.a[2] = pr.below(128); if (o.kind == M_PAIR && o.a[1] > o.a[2]) std::swap(o.a[1], o.a[2]); }
             else o.kind = pr.chance(0.5) ? D_A : D_B;
             p.push_back(o); }
     }
@@ -66,6 +66,7 @@ struct MidiWorld : World {
         BindMap mb; std::deque<std::pair<std::string, bool>> mq; BindMap gen;                 // nRT bindings, learn queue, RT's current generation
         std::deque<int> rt_pending; int rt_watch = 0; std::set<int> used_ids; bool nontrivial = false; uint64_t shape = 0; int opi = 0;
         std::string taint; bool model_trusted = true;
+        std::map<int, int> id_of_ctrl, ctrl_of_id;                          // the id under which the realtime half reports a controller (learned from its use-CC messages)
         std::map<int, int> last_val;                                        // last value each controller sent
         struct Mem { int vc = -1, vf = -1; std::map<std::pair<int, int>, double> seen; }; std::map<std::string, Mem> mem;   // per address: known 14-bit inputs and the outputs they produced
         auto fail = [&](const char *cls, const std::string &d) { if (res.cls.empty()) { res.cls = cls; res.detail = d; } };
@@ -84,12 +85,17 @@ struct MidiWorld : World {
         };
         auto resync_model = [&]() { mb.clear(); for (int i = 0; i < NADDR; i++) { std::string a = ADDR[i]; int c = nrt->getCoarse(a), f = nrt->getFine(a); if (c != -1 || f != -1) { mb[a].coarse = c; mb[a].fine = f; } } mq.assign(nrt->learnQueue.begin(), nrt->learnQueue.end()); };
         // one MIDI event at the realtime half
-        auto midi_cc = [&](int id, int v, double *out, std::string *to) -> bool {
-            backend.clear(); used_ids.insert(id); last_val[id] = v;
-            std::string addr; bool coarse = true; int owners = id_owner(gen, id, addr, coarse);
+        auto midi_cc = [&](int ctrl, int v, double *out, std::string *to) -> bool {
+            // ctrl = controller number + 200 for channel 2 + 1000 for an NRPN controller: three different controllers in the sense of the statement
+            backend.clear(); used_ids.insert(ctrl); last_val[ctrl] = v; int par = ctrl % 200, chan = (ctrl % 1000) >= 200 ? 2 : 1; bool nrpn = ctrl >= 1000;
+            int id = id_of_ctrl.count(ctrl) ? id_of_ctrl[ctrl] : -1;
+            std::string addr; bool coarse = true; int owners = id >= 0 ? id_owner(gen, id, addr, coarse) : 0;
             // mirror of the watch/pending handshake (for trigger detection only)
             size_t b0 = chB.size();
-            rt->handleCC(id, v);
+            rt->handleCC(par, v, (char)chan, nrpn);
+            if (chB.size() > b0 && chB.back().use_id >= 0) { int U = chB.back().use_id;
+                if (ctrl_of_id.count(U) && ctrl_of_id[U] != ctrl) { snprintf(b, sizeof b, "op %d: two different controllers (%s%d on channel %d and controller code %d) are reported under the same id %d", opi, nrpn ? "NRPN " : "", par, chan, ctrl_of_id[U], U); fail("ID-COLLISION", b); return false; }
+                ctrl_of_id[U] = ctrl; id_of_ctrl[ctrl] = U; }
             if (chB.size() > b0 && chB.back().use_id >= 0) { if (rt_watch > 0) rt_watch--; rt_pending.push_back(chB.back().use_id); }   // mirror of the handshake, from what the realtime half actually sent
             if (owners > 1) return true;      // only possible after a duplicate request (tainted): not judged
             if (owners == 0) { stat_add(P_UNBOUND_SILENT); if (!backend.empty() && model_trusted) { snprintf(b, sizeof b, "op %d: controller %d is not assigned in the realtime half's generation but produced a message to %s", opi, id, backend[0].data()); fail("CROSS-DRIVE", b); return false; } return true; }
@@ -104,6 +110,7 @@ struct MidiWorld : World {
             { // the same 14-bit controller value produces the same output, whatever happened to OTHER addresses in between
                 Mem &mm = mem[addr]; if (coarse) mm.vc = v; else mm.vf = v; Bind gb = gen[addr]; bool know = (gb.coarse < 0 || mm.vc >= 0) && (gb.fine < 0 || mm.vf >= 0) && gb.coarse >= 0;
                 if (know) { auto key = std::make_pair(mm.vc, gb.fine < 0 ? 0 : mm.vf); auto itS = mm.seen.find(key);
+                    for (auto &sv : mm.seen) if ((sv.first < key && sv.second > val) || (key < sv.first && sv.second < val)) { snprintf(b, sizeof b, "op %d: %s: (coarse %d, fine %d) produced %.9g but (coarse %d, fine %d) produced %.9g: the output does not grow with the 14-bit controller value", opi, addr.c_str(), key.first, key.second, val, sv.first.first, sv.first.second, sv.second); fail("MONOTONIC-14", b); return false; }
                     if (itS == mm.seen.end()) mm.seen[key] = val; else { stat_add(P_VALUE_MEMORY); if (itS->second != val) { snprintf(b, sizeof b, "op %d: %s: coarse value %d, fine value %d produced %.9g earlier and %.9g now although its controllers never changed (the stored 14-bit value was lost when another address was mapped or unmapped)", opi, addr.c_str(), key.first, key.second, itS->second, val); fail("VALUE-MEMORY", b); return false; } } } }
             { std::string a2; bool c2; if (id_owner(mb, id, a2, c2) != 1 || a2 != addr) stat_add(P_STALE_GEN_DRIVE); }
             return true;
@@ -146,8 +153,8 @@ struct MidiWorld : World {
             opi++; stat_add(ST_OPS); shape = mix64(shape, op.kind * 1009 + (uint64_t)op.a[0] * 17 + (uint64_t)op.a[1]);
             switch (op.kind) {
             case U_MAP: case U_UNMAP: case U_CLEAR: user_op(op.kind, ADDR[(a0 + (((op.a[0] % na) + na) % na)) % NADDR], !(op.a[1] & 1)); break;
-            case M_CC: { if (!chA.empty() || !chB.empty()) stat_add(F_OVERTAKE); int id = (int)(((op.a[0] % 120) + 120) % 120); int v = op.a[1] < 0 ? (last_val.count(id) ? last_val[id] : 64) : (int)(op.a[1] % 128); midi_cc(id, v, nullptr, nullptr); break; }
-            case M_PAIR: { int id = (int)(((op.a[0] % 120) + 120) % 120), v1 = (int)(((op.a[1] % 128) + 128) % 128), v2 = (int)(((op.a[2] % 128) + 128) % 128); if (v1 > v2) std::swap(v1, v2);
+            case M_CC: { if (!chA.empty() || !chB.empty()) stat_add(F_OVERTAKE); int id = (int)(((op.a[0] % 120) + 120) % 120) + (op.a[3] % 3 == 1 ? 200 : op.a[3] % 3 == 2 ? 1000 : 0); int v = op.a[1] < 0 ? (last_val.count(id) ? last_val[id] : 64) : (int)(op.a[1] % 128); midi_cc(id, v, nullptr, nullptr); break; }
+            case M_PAIR: { int id = (int)(((op.a[0] % 120) + 120) % 120) + (op.a[3] % 3 == 1 ? 200 : op.a[3] % 3 == 2 ? 1000 : 0), v1 = (int)(((op.a[1] % 128) + 128) % 128), v2 = (int)(((op.a[2] % 128) + 128) % 128); if (v1 > v2) std::swap(v1, v2);
                 double o1 = 0, o2 = 0; std::string a1, a2; if (midi_cc(id, v1, &o1, &a1) && midi_cc(id, v2, &o2, &a2) && !a1.empty() && a1 == a2 && model_trusted) { stat_add(P_PAIR); if (o2 < o1) { snprintf(b, sizeof b, "op %d: controller %d: value fell from %.9g to %.9g when the controller value rose from %d to %d (%s)", opi, id, o1, o2, v1, v2, a1.c_str()); fail("MONOTONIC", b); } }
                 break; }
             case D_A: if (chA.size() > 0) { if (chA.size() > 1 || !chB.empty()) stat_add(F_DELAY_A); deliver_A(); } break;
@@ -166,28 +173,28 @@ struct MidiWorld : World {
                 midi_cc(id, 64, nullptr, nullptr); drain(); stat_add(P_CLOSING_LEARN);
                 if (!res.cls.empty()) break;
                 int got = want.second ? nrt->getCoarse(want.first) : nrt->getFine(want.first);
-                if (got != id) { snprintf(b, sizeof b, "closing phase: %s asked for a %s controller and the fresh controller %d arrived with all channels drained, but it is bound to %d (realtime half: watch count %u, %d pending)", want.first.c_str(), want.second ? "coarse" : "fine", id, got, rt->watchSize, rt->pending.size); fail("LEARN-LIVENESS", b); break; }
+                if (!id_of_ctrl.count(id) || got != id_of_ctrl[id]) { snprintf(b, sizeof b, "closing phase: %s asked for a %s controller and the fresh controller %d arrived with all channels drained, but it is bound to %d (realtime half: watch count %u, %d pending)", want.first.c_str(), want.second ? "coarse" : "fine", id, got, rt->watchSize, rt->pending.size); fail("LEARN-LIVENESS", b); break; }
                 double o = 0; std::string to; midi_cc(id, 100, &o, &to); if (res.cls.empty() && to != want.first) { snprintf(b, sizeof b, "closing phase: controller %d was learned for %s but its next value drove '%s'", id, want.first.c_str(), to.c_str()); fail("DRIVE", b); }
             }
             // quiescent strong form: every binding the non-realtime half reports is driven by its controller, nothing else is
-            if (res.cls.empty() && model_trusted) for (auto &kv : mb) for (int half = 0; half < 2 && res.cls.empty(); half++) { int id = half ? kv.second.fine : kv.second.coarse; if (id < 0) continue; opi++; std::string to; double o; midi_cc(id, 37, &o, &to);
+            if (res.cls.empty() && model_trusted) for (auto &kv : mb) for (int half = 0; half < 2 && res.cls.empty(); half++) { int iid = half ? kv.second.fine : kv.second.coarse; if (iid < 0 || !ctrl_of_id.count(iid)) continue; int id = ctrl_of_id[iid]; opi++; std::string to; double o; midi_cc(id, 37, &o, &to);
                 if (res.cls.empty() && to != kv.first) { snprintf(b, sizeof b, "quiescent: %s is bound to controller %d but its value drove '%s'", kv.first.c_str(), id, to.c_str()); fail("QUIESCENT", b); } }
             // 14-bit composition: the full swing of the fine controller weighs less than one step of the coarse one
-            if (res.cls.empty() && model_trusted) for (auto &kv : mb) { if (kv.second.coarse < 0 || kv.second.fine < 0) continue; int c = kv.second.coarse, f = kv.second.fine; double o0, o1, o2, o3; std::string t; opi++;
+            if (res.cls.empty() && model_trusted) for (auto &kv : mb) { if (kv.second.coarse < 0 || kv.second.fine < 0 || !ctrl_of_id.count(kv.second.coarse) || !ctrl_of_id.count(kv.second.fine)) continue; int c = ctrl_of_id[kv.second.coarse], f = ctrl_of_id[kv.second.fine]; double o0, o1, o2, o3; std::string t; opi++;
                 if (!(midi_cc(c, 10, &o0, &t) && midi_cc(f, 0, &o0, &t) && midi_cc(f, 127, &o1, &t) && midi_cc(c, 11, &o2, &t) && midi_cc(f, 0, &o3, &t))) break; stat_add(P_FINE_WEIGHT);
                 if (!(o0 <= o1 && o1 <= o3 && o3 <= o2)) { snprintf(b, sizeof b, "quiescent: %s coarse %d fine %d: (coarse 10, fine 0) -> %.9g, (10,127) -> %.9g, (11,0) -> %.9g, (11,127) -> %.9g: not ordered as the 14-bit value", kv.first.c_str(), c, f, o0, o1, o3, o2); fail("FINE-WEIGHT", b); } }
-            if (res.cls.empty() && model_trusted) for (int id : used_ids) { std::string a; bool c; if (id_owner(mb, id, a, c) == 0) { opi++; backend.clear(); rt->handleCC(id, 5); if (!backend.empty()) { snprintf(b, sizeof b, "quiescent: controller %d is assigned to nothing (unmapped or never assigned) but drove %s", id, backend[0].data()); fail("CROSS-DRIVE", b); break; } stat_add(P_UNMAP_STOPS); } }
+            if (res.cls.empty() && model_trusted) for (int ctrl : used_ids) { std::string a; bool c; int id = id_of_ctrl.count(ctrl) ? id_of_ctrl[ctrl] : -1; if (id < 0 || id_owner(mb, id, a, c) == 0) { opi++; backend.clear(); rt->handleCC(ctrl % 200, 5, (char)((ctrl % 1000) >= 200 ? 2 : 1), ctrl >= 1000); if (!backend.empty()) { snprintf(b, sizeof b, "quiescent: controller %d is assigned to nothing (unmapped or never assigned) but drove %s", id, backend[0].data()); fail("CROSS-DRIVE", b); break; } stat_add(P_UNMAP_STOPS); } }
             // unmapping ANOTHER address leaves a coarse+fine pair's stored 14-bit value alone ("other addresses' bindings are unaffected")
             if (res.cls.empty() && model_trusted) { std::string pairaddr, other; bool other_coarse = true;
                 for (auto &kv : mb) if (kv.second.coarse >= 0 && kv.second.fine >= 0) pairaddr = kv.first;
                 for (auto &kv : mb) if (kv.first != pairaddr && !pairaddr.empty()) { other = kv.first; other_coarse = kv.second.coarse >= 0; }
-                if (!pairaddr.empty() && !other.empty()) { Bind pb = mb[pairaddr]; double oa = 0, ob = 0; std::string t; opi++;
+                if (!pairaddr.empty() && !other.empty() && ctrl_of_id.count(mb[pairaddr].coarse) && ctrl_of_id.count(mb[pairaddr].fine)) { Bind pb; pb.coarse = ctrl_of_id[mb[pairaddr].coarse]; pb.fine = ctrl_of_id[mb[pairaddr].fine]; double oa = 0, ob = 0; std::string t; opi++;
                     if (midi_cc(pb.coarse, 90, &oa, &t) && midi_cc(pb.fine, 33, &oa, &t)) { user_op(U_UNMAP, other, other_coarse); drain();
                         if (res.cls.empty() && midi_cc(pb.fine, 33, &ob, &t) && res.cls.empty()) { stat_add(P_UNMAP_OTHER); if (oa != ob) { snprintf(b, sizeof b, "closing phase: %s (coarse 90, fine 33) produced %.9g; after unmapping the unrelated %s the same fine value produced %.9g", pairaddr.c_str(), oa, other.c_str(), ob); fail("VALUE-MEMORY", b); } } } } }
             // a controller that was used before but is assigned to nothing must still be learnable
-            if (res.cls.empty() && model_trusted) { drain(); for (int id : used_ids) { std::string a; bool c; if (id_owner(mb, id, a, c) != 0) continue; std::string target; for (int i = 0; i < na; i++) if (!mb.count(ADDR[(a0 + i) % NADDR])) { target = ADDR[(a0 + i) % NADDR]; break; } if (target.empty()) break; opi++;
+            if (res.cls.empty() && model_trusted) { drain(); for (int id : used_ids) { std::string a; bool c; if (id_of_ctrl.count(id) && id_owner(mb, id_of_ctrl[id], a, c) != 0) continue; std::string target; for (int i = 0; i < na; i++) if (!mb.count(ADDR[(a0 + i) % NADDR])) { target = ADDR[(a0 + i) % NADDR]; break; } if (target.empty()) break; opi++;
                     user_op(U_MAP, target, true); drain(); midi_cc(id, 9, nullptr, nullptr); drain(); if (!res.cls.empty()) break;
-                    if (nrt->getCoarse(target) != id) { snprintf(b, sizeof b, "closing phase: %s asked for a controller and the unassigned controller %d arrived with all channels drained, but %s is bound to %d (realtime half: watch count %u, %d pending, %s)", target.c_str(), id, target.c_str(), nrt->getCoarse(target), rt->watchSize, rt->pending.size, rt->pending.has(id) ? "this controller is parked in the pending set" : "not parked"); fail("LEARN-LIVENESS", b); }
+                    if (!id_of_ctrl.count(id) || nrt->getCoarse(target) != id_of_ctrl[id]) { snprintf(b, sizeof b, "closing phase: %s asked for a controller and the unassigned controller %d arrived with all channels drained, but %s is bound to %d (realtime half: watch count %u, %d pending, %s)", target.c_str(), id, target.c_str(), nrt->getCoarse(target), rt->watchSize, rt->pending.size, rt->pending.has(id) ? "this controller is parked in the pending set" : "not parked"); fail("LEARN-LIVENESS", b); }
                     break; } }
         }
         res.taint = res.cls.empty() ? "" : taint;
